@@ -31,6 +31,7 @@ func ruleC01(c *Check) {
 	c.feeWriters("C01")
 	c.moduleServicePath("C01.2")
 	c.expiryScanGuard("C01.6")
+	c.custodyErrorsChecked("C01.11")
 }
 
 // pricingIdentity (C01.4, C06.8, C07.3): one pricing routine, same roles, recorded = charged.
@@ -153,9 +154,86 @@ func (c *Check) moduleServicePath(rule string) {
 				"requests are issued to the filter's result list (the credited amount is the filter total): issued to "+shortTerm(issue.CI.args[2]))
 			_, queued := c.pathHasEffect(f, pa, func(e *Eff) bool { return e.Kind == "store" && e.Op == "Set" && e.Family == "0x09" })
 			c.req(queued, strings.Replace(rule, "C01.2", "C01.2", 1), unitConstruct(f, "issue-expiry"), issue.Pos, "issuing queues the batch expiry on the same path")
+			c.moduleServiceProviders(rule, f, issue)
 			return
 		}
 	}
+}
+
+// moduleServiceProviders: the module-service function charges over the context's provider list and issues to
+// the module's own provider; the two agree only if every caller creates that context with exactly
+// [moduleService.Provider] (the same module service it hands to the function).
+func (c *Check) moduleServiceProviders(rule string, ms *Func, issue *Event) {
+	// which parameter of ms is the module service whose provider is issued to
+	msParam := ""
+	if len(issue.CI.args) >= 3 {
+		l := issue.CI.args[2]
+		if l.Op == "lit" && len(l.A) == 2 && strings.HasSuffix(l.A[1].Op, ".ModuleService.Provider") && len(l.A[1].A) == 1 {
+			msParam = l.A[1].A[0].String()
+		}
+	}
+	c.req(msParam != "" && strings.HasPrefix(msParam, "P"), rule, unitConstruct(ms, "issue-provider"), issue.Pos,
+		"the module-service function issues exactly one request, to the Provider of the module service it is given")
+	if msParam == "" || !strings.HasPrefix(msParam, "P") {
+		return
+	}
+	var pi int
+	fmt.Sscanf(msParam, "P%d", &pi)
+	// the context constructor and the position of its provider-list parameter
+	var ctor *Func
+	provIdx := -1
+	for f, pps := range c.persistUnits("0x08", "RequestContext") {
+		for _, pp := range pps {
+			for _, sv := range pp.Stored {
+				if sv.Op != "lit" {
+					continue
+				}
+				for _, kv := range sv.A[1:] {
+					if kv.Op == "Providers" && len(kv.A) == 1 && kv.A[0].Op == "" && strings.HasPrefix(kv.A[0].At, "P") {
+						ctor = f
+						fmt.Sscanf(kv.A[0].At, "P%d", &provIdx)
+					}
+				}
+			}
+		}
+	}
+	if ctor == nil || provIdx < 0 {
+		c.undecided(rule, "context-constructor", token.NoPos, "no function persists a new RequestContext whose Providers is one of its parameters")
+		return
+	}
+	n := 0
+	for _, h := range c.handFuncs("keeper", "service") {
+		for _, pa := range c.P.PathsOf(h) {
+			var call, create *Event
+			for _, ev := range pa.Events {
+				if ev.Kind != EvCall {
+					continue
+				}
+				if ev.CI.fn == ms {
+					call = ev
+				}
+				if ev.CI.fn == ctor && call == nil {
+					create = ev
+				}
+			}
+			if call == nil || pi >= len(call.CI.args) {
+				continue
+			}
+			n++
+			M := stripAddr(call.CI.args[pi])
+			ok := false
+			got := "no context is created on the path"
+			if create != nil && provIdx < len(create.CI.args) {
+				l := create.CI.args[provIdx]
+				got = shortTerm(l)
+				ok = l.Op == "lit" && len(l.A) == 2 && strings.HasSuffix(l.A[1].Op, ".ModuleService.Provider") && len(l.A[1].A) == 1 && l.A[1].A[0].Eq(M)
+			}
+			c.req(ok, rule, unitConstruct(h, "module-context-providers"), call.Pos,
+				"the context handed to the module-service function is created with exactly [moduleService.Provider] (the charge is computed over this list, the request is issued to that provider): "+got)
+			break
+		}
+	}
+	c.req(n >= 1, rule, "module-service-callers", token.NoPos, fmt.Sprintf("%d callers of the module-service function", n))
 }
 
 type crValue struct {
